@@ -12,6 +12,15 @@ class Planned(Exception):
     """The failure the case asked for."""
 
 
+class PlannedRecordError(Exception):
+    """A user exception whose constructor signature differs from its .args (cannot be rebuilt by pickle from args)."""
+
+    def __init__(self, record_id, reason):
+        super().__init__(f"record {record_id}: {reason}")
+        self.record_id = record_id
+        self.reason = reason
+
+
 def _log(event_file, text):
     if not event_file:
         return
@@ -33,6 +42,8 @@ def process_item(item, *sketches, event_file=None, die=None, table=None):
     mark = item.get("mark")
     if mark == "raise_before":
         raise Planned(f"item {i} fails before touching the sketches")
+    if mark == "raise_custom":
+        raise PlannedRecordError(i, "malformed record")
     if mark == "exit":
         _log(event_file, f"{os.getpid()} {i} exit")
         if die is not None:
@@ -49,4 +60,12 @@ def process_item(item, *sketches, event_file=None, die=None, table=None):
     if mark == "raise_after":
         raise Planned(f"item {i} fails after updating the sketches")
     _log(event_file, f"{os.getpid()} {i} done")
+    if item.get("ret") == "np.int64":
+        import numpy as np
+
+        return np.int64(item["records"])  # callbacks that count with NumPy return NumPy integers
+    if item.get("ret") == "np.uint32":
+        import numpy as np
+
+        return np.uint32(item["records"])
     return item["records"]
